@@ -241,3 +241,8 @@ def count_of(s, c):
 def n_hash_tags(L: "List[HedTag]", n: "Int") -> "Int":
     """number of tags among the first n of L whose text contains a '#'"""
     return 0 if n <= 0 else n_hash_tags(L, n - 1) + (1 if count_of(L[n - 1].__str__, '#') > 0 else 0)
+
+
+def join_off(sep, parts, j):
+    """smt-builtin: start of part j inside sep.join(parts)"""
+    return sum(len(p) + len(sep) for p in parts[:j])
